@@ -39,6 +39,8 @@ inductive DInsn where
   | newarray (atype : Nat)
   /-- `multianewarray indexbyte1 indexbyte2 dimensions` -/
   | multianewarray (idx dims : Nat)
+  /-- `invokedynamic indexbyte1 indexbyte2 0 0` -/
+  | invokedynamic (idx : Nat)
   deriving DecidableEq, Repr
 
 /-- opcodes without operands (JVMS §6.5 / §7): constants, array loads and stores, stack, arithmetic, conversions,
@@ -210,6 +212,11 @@ def decodeOne (pc : Nat) (bs : Bytes) : Option (DInsn × Nat) :=
     else if op == 0xc5 then
       match rest with
       | a :: b :: d :: _ => some (.multianewarray (a * 256 + b) d, 4)
+      | _ => none
+    else if op == 0xba then
+      -- the third and fourth operand bytes must always be zero
+      match rest with
+      | a :: b :: y :: z :: _ => if y == 0 && z == 0 then some (.invokedynamic (a * 256 + b), 5) else none
       | _ => none
     else none
 
